@@ -13,7 +13,11 @@ This plugin is the property's correspondence AND its failing-input search:
  3. the reload differential on the real server: the same history with the topic unloaded and
     loaded back (or the process restarted) between two requests, every later query answer and
     the stored rows compared with the unperturbed run;
- 4. (thorough) the fault sweep: Fail(k)/Crash(k) at every adapter call of every mutating request.
+ 4. the fault sweep: Fail(k)/Crash(k) at every adapter call of every mutating request (quick: a sample
+    stratified by request kind, call index, F/C and - for {sub}/{set sub} - the branch taken);
+ 5. MODEL-GUIDED permission histories (c08perm.py): the extracted classifier perm_branch_c08c aims {sub} / {set sub}
+    requests at every branch of thisUserSub / anotherUserSub / replyOfflineTopicSetSub; the law ack-acs-not-stored
+    (theorem c08_acs_ack_is_stored) is evaluated on every {ctrl 200 params.acs} of the implementation.
 A second, self-contained part (description / default access / tags / public / private data, which
 are outside the op alphabet of Sys/Topic.v) lives in c08desc.py."""
 import json
@@ -23,6 +27,7 @@ import time
 import vlib
 from props import statelib
 from props import topiclib as T
+from props import c08perm as PERM
 from props.statelib import View, eff, kvs
 
 QUERIES = ("getdesc", "getsub", "getdata", "getdel")
@@ -149,6 +154,25 @@ def monitor(sc, views):
             else:
                 law = classify(sc, k, prev, v, key, det)
             res.append((law, k, "%s after %s %s" % (det, kind, args), key))
+        # an acknowledged access mode is the stored access mode (theorem c08_acs_ack_is_stored): every
+        # {ctrl 200 params.acs=want/given} of a {sub}/{set sub} names the live stored row of the user it is about
+        if kind in ("sub", "setsub") and args:
+            for sid, t in v.frames:
+                if sid != args[0] or not t.startswith("ctrl 200 ") or " acs=" not in t:
+                    continue
+                d = kvs(t)
+                subject = int(d["user"]) if d.get("user", "0") != "0" else sc.sessions.get(args[0])
+                aw, ag = d["acs"].split("/")
+                row = v.subs.get(subject)
+                if row is not None and not row["deleted"] and not just_loaded and \
+                   all((f, subject) in prev_inc for f, a in (("want", aw), ("given", ag)) if row[f] != a):
+                    # the differing mode had diverged BEFORE this request (hypothesis inv of the theorem): the request
+                    # that made it so has been reported (e.g. offline-setsub-stale-cache); this is its consequence
+                    continue
+                if row is None or row["deleted"] or row["want"] != aw or row["given"] != ag:
+                    res.append(("ack-acs-not-stored", k, "%s %s acknowledged acs=%s/%s for user %s but the stored subscription is %s"
+                                % (kind, args, aw, ag, subject,
+                                   "absent" if row is None else "%s/%s deleted=%d" % (row["want"], row["given"], row["deleted"])), None))
         # a rejected or failed request changes neither the store nor the cache
         if prev is not None and kind in MUTATING + QUERIES and args:
             code = reply_code(v, args[0])
@@ -291,7 +315,14 @@ def diff_kinds(a_block, b_block, query):
 
 def reload_ops(view_before, how):
     att = sorted(view_before.csess) if view_before is not None and view_before.loaded else []
-    back = [("N", "sub", [s, "-", 0]) for s in att]
+
+    def again(s):
+        # a mode-less {sub} re-attaches a session without changing anything - except for a user whose want has no J
+        # (attached by re-stating that want, branch t-same): there it would un-self-ban.  Such a session comes back
+        # the way it came, with its current want spelled out.
+        p = view_before.cusers.get(view_before.csess[s])
+        return T.hx(p["want"]) if p is not None and "J" not in p["want"] else "-"
+    back = [("N", "sub", [s, again(s), 0]) for s in att]
     if how == "unload":
         return [("N", "leave", [s, 0]) for s in att] + [("N", "unload", [])] + back
     return [("N", "restart", [])] + back
@@ -313,10 +344,20 @@ def compare_variant(sc, base_blocks, var_blocks, p, nins):
         if kinds:
             return p - 1, kinds, det, True
     for k in range(p, len(sc.ops)):
+        if sc.ops[k][0] != "N" and _names(base_blocks[k]["calllog"]) != _names(var_blocks[k + nins]["calllog"]):
+            # Fail(k)/Crash(k) counts the adapter calls of the request; here the request makes a different sequence of
+            # calls in the two runs (typically: the perturbed run has to load the topic first, because the idle unload
+            # removed a topic that had stayed loaded without sessions), so the SAME fault plan hits a different call:
+            # the two runs are no longer the same experiment, nothing after this point is comparable
+            return None
         kinds, det = diff_kinds(base_blocks[k], var_blocks[k + nins], sc.ops[k][1] in QUERIES)
         if kinds:
             return k, kinds, det, False
     return None
+
+
+def _names(calllog):
+    return [c.split("!")[0] for c in calllog.split()]
 
 
 def attribute(sc, views, fails, p, k, kinds, base_blocks, var_blocks, nins, during):
@@ -369,7 +410,7 @@ def run_impl_guarded(ctx, scns, tag):
         if os.path.exists(fout):
             os.remove(fout)
         env = dict(vlib.GOENV, VERIF_IN=fin, VERIF_OUT=fout)
-        p = subprocess.Popen([os.path.join(vlib.BUILD, "maindrv.test"), "-test.run", "^TestVerifTopic$", "-test.count=1", "-test.timeout=3000s"],
+        p = subprocess.Popen([os.path.join(vlib.BUILD, "maindrv.test"), "-test.run", PERM.TEST_NAME, "-test.count=1", "-test.timeout=3000s"],
                              stdout=subprocess.PIPE, stderr=subprocess.STDOUT, env=env, cwd=os.path.join(vlib.REPO, "server"))
         try:
             out, _ = p.communicate(timeout=budget)
@@ -394,6 +435,28 @@ def run_impl_guarded(ctx, scns, tag):
         log = "\n".join(l for l in out.split("\n") if not (len(l) > 3 and l[0] in "IWE" and l[1:3] == "20"))
         return (1 if hung else p.returncode), T.parse_blocks(lines), log
     return 1, {}, ""
+
+
+def run_impl_plain(ctx, scns, tag="t"):
+    """topiclib.run_impl through this property's own driver entry (TestVerifC08cPerm: the topic driver + ghost users)"""
+    import subprocess
+    fin = os.path.join(ctx.work, "scn_%s.in" % tag)
+    fout = os.path.join(ctx.work, "scn_%s.impl" % tag)
+    with open(fin, "w") as f:
+        for sc in scns:
+            f.write("\n".join(sc.lines()) + "\n")
+    if os.path.exists(fout):
+        os.remove(fout)
+    env = dict(vlib.GOENV, VERIF_IN=fin, VERIF_OUT=fout)
+    try:
+        p = subprocess.run([os.path.join(vlib.BUILD, "maindrv.test"), "-test.run", PERM.TEST_NAME, "-test.count=1", "-test.timeout=600s"],
+                           stdout=subprocess.PIPE, stderr=subprocess.STDOUT, env=env, cwd=os.path.join(vlib.REPO, "server"), timeout=700)
+    except subprocess.TimeoutExpired:
+        return 1, {}, "timeout"
+    out = p.stdout.decode("utf8", "replace")
+    lines = open(fout).read().split("\n") if os.path.exists(fout) else []
+    log = "\n".join(l for l in out.split("\n") if not (len(l) > 3 and l[0] in "IWE" and l[1:3] == "20"))
+    return p.returncode, T.parse_blocks(lines), log
 
 
 def run_and_view(ctx, scns, tag):
@@ -439,10 +502,12 @@ def run(ctx):
     quick = ctx.tier == "quick"
     rng = ctx.rng
     stats = {}
+    phase = {"proofs_and_builds": round(time.time() - ctx.t0, 1)}
 
     # ---- base histories
     scns = []
     every = {}          # scenario id -> perturb at every position
+    guided = set()      # ids of the model-guided permission histories
     replay_ins = None
     if ctx.replay and json.load(open(ctx.replay))["replay"].get("part") == "desc":
         # a replay of the description/tags part
@@ -479,14 +544,22 @@ def run(ctx):
                 scns.append(sc)
                 every[sc.id] = True
         total = 80 if quick else 400
-        for pi, (profile, faults, share) in enumerate([("msg", 0.0, 0.35), ("msg", 0.15, 0.2), ("perm", 0.0, 0.3), ("perm", 0.15, 0.15)]):
+        # the permission share of the random profiles is smaller than it was: the model-guided permission
+        # histories below take their place
+        for pi, (profile, faults, share) in enumerate([("msg", 0.0, 0.35), ("msg", 0.15, 0.2), ("perm", 0.0, 0.1), ("perm", 0.15, 0.1)]):
             for sc in T.gen_scenarios(ctx, max(1, int(total * share)), profile, faults, nops=(6, 20), prefix="p%d_" % pi):
                 sc.ops = sc.ops + probes(rng, sc)
                 scns.append(sc)
+        gscns, _, gcov = PERM.gen_guided(ctx, 28 if quick else 150, extra_max=20)
+        for sc in gscns:
+            sc.ops = sc.ops + probes(rng, sc)
+            scns.append(sc)
+            guided.add(sc.id)
+    phase["generation"] = round(time.time() - ctx.t0 - phase["proofs_and_builds"], 1)
     t0 = time.time()
     impl = run_and_view(ctx, scns, "base")
     t_impl = time.time() - t0
-    rc, model, err = T.run_model(ctx, scns)
+    rc, model, branches, err = PERM.run_model_branches(ctx, scns)
     if rc != 0:
         ctx.violation("proof", "runner-crashed", "model runner failed: " + err[-1500:], {"theorem_or_obligation": "model runner"})
         finish(ctx)
@@ -507,7 +580,7 @@ def run(ctx):
             nshrunk += 1
 
             def still_bad(c, law=law):
-                rc2, im2, _ = T.run_impl(ctx, [c], tag="shrink")
+                rc2, im2, _ = run_impl_plain(ctx, [c], tag="shrink")
                 return rc2 == 0 and c.id in im2 and len(im2[c.id]) == len(c.ops) and any(l == law for l, _, _, _ in mon(c, im2[c.id])[1])
             small = T.shrink(ctx, small, still_bad, budget=20 if quick else 120)
         ctx.violation("monitor", law, "law %s fails on the implementation's trace (%d requests this run): %s" % (law, len(lst), detail),
@@ -528,17 +601,31 @@ def run(ctx):
 
     # ---- reload / restart differential on the real server
     variants = []       # (variant scn, base scn, p, nins, how)
+    reload_after = {}   # branch -> perturbed runs with the reload right after a request of that branch
     if ctx.replay:
         if replay_ins:
             c, nins = variant_of(scns[0], views[scns[0].id], replay_ins[0], replay_ins[1], "v0")
             variants.append((c, scns[0], replay_ins[0], nins, replay_ins[1]))
     else:
         n_every = 3 if quick else 60
-        pick_every = set(sc.id for sc in rng.sample(scns, min(n_every, len(scns)))) | set(every)
+        plain = [sc for sc in scns if sc.id not in guided]
+        pick_every = set(sc.id for sc in rng.sample(plain, min(n_every, len(plain)))) | set(every)
         for sc in scns:
             n = len(sc.ops)
             if sc.id in pick_every:
                 pos = [(p, PERTURB[(p + len(variants)) % 2] if quick else None) for p in range(1, n + 1)]
+            elif sc.id in guided:
+                # reload RIGHT AFTER permission requests, the positions spread over the branches: the ones whose
+                # branch has had the fewest reloads so far (thorough: after every permission request)
+                cand = sorted(branches.get(sc.id, {}).items())
+                if quick:
+                    rng.shuffle(cand)
+                    cand.sort(key=lambda kb: reload_after.get(kb[1], 0))
+                    cand = cand[:2]
+                pos = []
+                for k, b in cand:
+                    reload_after[b] = reload_after.get(b, 0) + 1
+                    pos.append((k + 1, PERTURB[(k + len(variants) + len(pos)) % 2]))
             elif quick:
                 pos = [(rng.randint(1, n), rng.choice(PERTURB))]
             else:
@@ -581,9 +668,11 @@ def run(ctx):
                       % (what, k, sc.ops[min(k, len(sc.ops) - 1)], sorted(kinds), json.dumps(det, default=str)[:600], len(lst)),
                       {"head": small.head, "ops": small.ops, "insert_at": sp, "how": how, "law": law, "fields": sorted(kinds), "detail": det})
 
+    t_sw = time.time()
     # ---- fault sweep: Fail(k)/Crash(k) at every adapter call of every mutating request
     # (thorough: all; quick: a sample stratified by (request kind, call index, F/C))
     sweep = 0
+    sweep_br = {}
     if not ctx.replay:
         sw = []
         for sc in scns:
@@ -600,19 +689,25 @@ def run(ctx):
                         c = sc.clone(sc.ops[:p] + [(fc + str(kk), o[1], o[2])] + sc.ops[p + 1:p + 6])
                         c.id = "%s_%s%d_%d" % (sc.id, fc, kk, p)
                         c.head = [re.sub(r"^scn \S+", "scn " + c.id, sc.head[0])] + sc.head[1:]
-                        sw.append((c, sc, p, (o[1], kk, fc, ncalls)))
+                        br = branches.get(sc.id, {}).get(p) if sc.id in guided else None
+                        sw.append((c, sc, p, (o[1], kk, fc, ncalls) + ((br,) if br else ())))
         rng.shuffle(sw)
         if quick:
             per = {}
             pick = []
             for x in sw:
-                if per.get(x[3], 0) < 4:
+                # 4 runs per (kind, call, F/C, calls); 1 more per (.., branch) for the guided permission requests
+                if per.get(x[3], 0) < (4 if len(x[3]) == 4 else 1):
                     per[x[3]] = per.get(x[3], 0) + 1
                     pick.append(x)
-            sw = pick[:240]
+            pick.sort(key=lambda x: len(x[3]))
+            sw = pick[:240] + [x for x in pick[240:] if len(x[3]) == 5][:80]
         else:
             sw = sw[:4000]
         sweep = len(sw)
+        for x in sw:
+            if len(x[3]) == 5:
+                sweep_br[x[3][4]] = sweep_br.get(x[3][4], 0) + 1
         stats["sweep_strata"] = len(set(x[3] for x in sw))
         for i in range(0, len(sw), 400):
             part = sw[i:i + 400]
@@ -635,6 +730,7 @@ def run(ctx):
                         ctx.violation("monitor", law, "law %s fails on the implementation's trace (fault sweep): %s" % (law, detail),
                                       {"head": c.head, "ops": c.ops[:k + 1], "law": law, "detail": detail})
 
+    phase["fault_sweep"] = round(time.time() - t_sw, 1)
     # ---- correspondence verdict
     nfail = len(ctx.violations)
     searched = 0
@@ -650,7 +746,7 @@ def run(ctx):
             c.ops = c.ops + [o for o in extra if not o[2] or o[2][0] in base.sessions] + probes(rng, base)
             pool.append(c)
         found = False
-        rc2, im2, _ = T.run_impl(ctx, pool, tag="search")
+        rc2, im2, _ = run_impl_plain(ctx, pool, tag="search")
         searched = len(pool)
         if rc2 == 0:
             for c in pool:
@@ -703,7 +799,7 @@ def run(ctx):
             nt.add(hash(tuple(map(repr, sig))))
     ctx.coverage.update({
         "evaluations": len(scns) + len(variants) + sweep, "distinct_nontrivial": len(nt),
-        "rule": "seeded random histories over one group topic (profiles msg and perm of topiclib: 2-5 users x 1-2 sessions, seeded subscriptions with assorted want/given; pub/note/get*/delmsg/leave/sub/setsub/delsub/unload/restart, 6-20 requests, about a third with single store faults F k / C k) followed by probe queries (getdesc+getsub for every session, getdata+getdel for three); each history is run unperturbed and with the topic reloaded (leave all; unload; re-attach) or the process restarted (restart; re-attach) before one random request (and before EVERY request for %s histories) and every later query answer and the stored rows are compared; thorough adds the Fail(k)/Crash(k) sweep over every adapter call of every mutating request; non-trivial = at least one accepted mutating request; distinct by (requests, replies)" % ("5" if quick else "all"),
+        "rule": "seeded random histories over one group topic (profiles msg and perm of topiclib: 2-5 users x 1-2 sessions, seeded subscriptions with assorted want/given; pub/note/get*/delmsg/leave/sub/setsub/delsub/unload/restart, 6-20 requests, about a third with single store faults F k / C k) plus MODEL-GUIDED permission histories (tools/props/c08perm.py: 3-5 users + one user id that is in no table, owner and member rows of 22 shapes, the extracted classifier perm_branch_c08c probed on candidate {sub}/{set sub} requests built from the model's current want/given - same, one bit more, one bit less, without J, with/without O, default, N, junk, every session and target - and the least-visited branch chosen; each followed by get sub / get desc from the requester, the target and a third session; movers leave/unsubscribe/evict/publish/unload+re-attach/restart), all followed by probe queries (getdesc+getsub for every session, getdata+getdel for three); each history is run unperturbed and with the topic reloaded (leave all; unload; re-attach) or the process restarted (restart; re-attach) before one random request (before EVERY request for %s histories; for the model-guided histories right after two permission requests each, spread over the branches) and every later query answer and the stored rows are compared; the Fail(k)/Crash(k) sweep over the adapter calls of mutating requests is stratified in the quick tier (request kind, call index, F/C, branch of a guided permission request) and complete up to 4000 runs in the thorough tier; non-trivial = at least one accepted mutating request; distinct by (requests, replies)" % ("5" if quick else "all"),
         "operations_executed": nops + sum(len(v[0].ops) for v in variants),
         "base_histories": len(scns), "perturbed_runs": len(variants), "fault_sweep_runs": sweep, "fault_sweep_strata": stats.get("sweep_strata", 0),
         "perturbed_runs_differing": {k: len(v) for k, v in dfails.items()},
@@ -714,17 +810,54 @@ def run(ctx):
         "input_distribution": {"op_kinds": kinds_c, "ctrl_codes": codes, "faults": faults_seen,
                                "users_per_scenario": sorted(set(sc.nusers for sc in scns)),
                                "ops_per_scenario_max": max(len(sc.ops) for sc in scns)},
-        "impl_wall_s": round(t_impl, 1), "differential_wall_s": round(t_var, 1),
+        "impl_wall_s": round(t_impl, 1), "differential_wall_s": round(t_var, 1), "phase_wall_s": phase,
         "trusted_base": [
             "projection compared for C08: answers to getdesc/getsub/getdata/getdel, ctrl replies, every stored row of the topic (topic row, subscriptions, messages, deletion log), cached lastID/delID/owner and per-user want/given/read/recv/delID",
             "the reload perturbation is built from requests of the alphabet (leave without unsub for every attached session; idle unload through hub.unreg; re-attach with a {sub} that carries no mode), so it runs only real code",
-            "harness/overlay/server/zz_verif_topic_test.go: drives the real Hub/Topic/Session code through Session.dispatchRaw, quiescence by goroutine-state snapshot; dumps Topic.perUser/lastID/delID/owner at quiescence",
+            "harness/overlay/server/zz_verif_topic_test.go: drives the real Hub/Topic/Session code through Session.dispatchRaw, quiescence by goroutine-state snapshot; dumps Topic.perUser/lastID/delID/owner at quiescence; entry point of this property: harness/overlay/server/zz_verif_c08c_test.go (TestVerifC08cPerm: the same loop and helpers + 'ghost n' = a user id that is in no table, and the owner's grant of the scn line written with store.Subs.Update)",
+            "tools/props/c08perm.py + harness/runner/r_c08c.ml: the generator's branch labels come from the extracted Coq classifier perm_branch_c08c evaluated on the MODEL's state; they decide what is generated and what the evidence counts, never a verdict",
             "harness/overlay/server/db/memverif: in-memory adapter written from db/mysql/adapter.go (store contract modelled, not verified; the SQL engines are not run)",
             "tools/props/c08.py monitors: python restatement of the load path (initTopicGrp/loadSubscribers) and of the property on the implementation's trace",
             "model scope: one group topic (non-channel), LevelAuth users, no attachments/calls/presence frames; set-desc/tags/public/private are covered by the separate model Sys/TopicDesc.v (c08desc.py) when present"],
     })
     if desc_cov:
         ctx.coverage["desc_part"] = desc_cov
+    # ---- branch distribution of the permission requests (labels by the extracted classifier perm_branch_c08c on the
+    # model's state; model and implementation agree on every reply, stored row and cached mode of these histories
+    # unless a correspondence mismatch is reported above)
+    bdist, bcodes = {}, {}
+    for sc in scns:
+        for k, b in branches.get(sc.id, {}).items():
+            bdist[b] = bdist.get(b, 0) + 1
+            if sc.ops[k][0] != "N":
+                continue
+            code = None
+            for sid_, t_ in (views[sc.id][k].frames if k < len(views[sc.id]) else []):
+                if sid_ == sc.ops[k][2][0] and t_.startswith("ctrl ") and not t_.startswith("ctrl 205"):
+                    code = int(t_.split()[1])
+            bcodes.setdefault(b, {})
+            bcodes[b][str(code)] = bcodes[b].get(str(code), 0) + 1
+    unexpected = {}
+    for b, cs in bcodes.items():
+        for cd, cnt in cs.items():
+            if b in PERM.EXPECT and cd not in PERM.EXPECT[b]:
+                unexpected.setdefault(b, {})[cd] = cnt
+    empty = [b for b in PERM.REQUIRED if not bdist.get(b)]
+    ctx.coverage["perm_branches"] = {
+        "rule": "branch of thisUserSub (t-*) / anotherUserSub (a-*) / replyOfflineTopicSetSub (o-*) taken by each {sub}/{set sub} request of the base histories, as labelled by the extracted Coq classifier PermBranchC08c.perm_branch_c08c in the state the request starts from; model-guided histories: %d of %d base histories" % (len(guided), len(scns)),
+        "requests_per_branch": {b: bdist.get(b, 0) for b in PERM.REQUIRED},
+        "other_labels": {b: c for b, c in bdist.items() if b not in PERM.REQUIRED},
+        "required_branches": len(PERM.REQUIRED), "required_branches_empty": empty,
+        "self_raise_requests": sum(bdist.get(b, 0) for b in PERM.RAISE),
+        "implementation_reply_codes_per_branch": bcodes,
+        "fault_free_replies_outside_the_branch_expectation": unexpected,
+        "reloads_right_after_branch": reload_after,
+        "fault_sweep_runs_per_branch": sweep_br,
+    }
+    if empty and not ctx.replay:
+        ctx.notes.append("permission branches not visited by this run's generator: %s" % ", ".join(empty))
+    if unexpected:
+        ctx.notes.append("fault-free replies outside the expectation of the branch label (classifier vs implementation): %s" % json.dumps(unexpected))
     finish(ctx)
 
 
@@ -744,12 +877,12 @@ def shrink_variant(ctx, sc, p, how, law, budget):
         base, i = split(c)
         if base is None or not base.ops or i == 0:
             return False
-        rc, im, _ = T.run_impl(ctx, [base], tag="shrink")
+        rc, im, _ = run_impl_plain(ctx, [base], tag="shrink")
         if rc != 0 or base.id not in im or len(im[base.id]) != len(base.ops):
             return False
         vs, fl = mon(base, im[base.id])
         v, nins = variant_of(base, vs, i, how, base.id)
-        rc, im2, _ = T.run_impl(ctx, [v], tag="shrink2")
+        rc, im2, _ = run_impl_plain(ctx, [v], tag="shrink2")
         if rc != 0 or v.id not in im2 or len(im2[v.id]) != len(v.ops):
             return False
         r = compare_variant(base, im[base.id], im2[v.id], i, nins)
